@@ -138,6 +138,7 @@ CONSTANTS
   Mults = {mults}
   Mode = "{mode}"
   NoPruneWithHook = {noprune}
+  StoredBlock = {stored}
 INVARIANT PrunedEqualsExhaustive
 PROPERTY Progress
 CHECK_DEADLOCK FALSE
@@ -154,14 +155,15 @@ def _wand_mc(v):
     if not quick:
         runs.append(("hook", "{1, 2}", "{1, 2}", "bmw_safe", "TRUE"))
     for name, blocks, mults, mode, noprune in runs:
-        cfg = _cfg(f"MC_Wand_{name}_run.cfg", WAND_CFG.format(ndocs=nd if name != "hook" else 4, blocks=blocks, mults=mults, mode=mode, noprune=noprune))
+        cfg = _cfg(f"MC_Wand_{name}_run.cfg", WAND_CFG.format(ndocs=nd if name != "hook" else 4, blocks=blocks, mults=mults, mode=mode, noprune=noprune, stored=0))
         r = lib.tlc_mc("Wand.tla", cfg, timeout=5000, coverage=False)
         lib.require_mc_ok(r, f"Wand {name}")
         total_states += r["distinct"]
         total_trans += r["states"]
     refuted = []
-    for name, blocks, mults, mode, noprune in [("bmw_cur", "{1, 2}", "{1}", "bmw_cur", "TRUE"), ("hook_prunes", "{1}", "{1, 2}", "wand", "FALSE")]:
-        cfg = _cfg(f"MC_Wand_{name}_run.cfg", WAND_CFG.format(ndocs=4, blocks=blocks, mults=mults, mode=mode, noprune=noprune))
+    for name, blocks, mults, mode, noprune, stored in [("bmw_cur", "{1, 2}", "{1}", "bmw_cur", "TRUE", 0), ("hook_prunes", "{1}", "{1, 2}", "wand", "FALSE", 0),
+                                                       ("finer_stored_metadata_reused", "{2}", "{1}", "bmw_safe", "TRUE", 1)]:
+        cfg = _cfg(f"MC_Wand_{name}_run.cfg", WAND_CFG.format(ndocs=4, blocks=blocks, mults=mults, mode=mode, noprune=noprune, stored=stored))
         r = lib.tlc_mc("Wand.tla", cfg, timeout=1800, coverage=False)
         lib.expect_mc_violation(r, f"Wand {name}", {"PrunedEqualsExhaustive"})
         refuted.append(name)
